@@ -429,7 +429,13 @@ def _same_name_body(w0: int, w1: int, v: int) -> bool:
         return False
     got = [(d.name, str(d.version), str(d.head)) for d in r.get_dependencies(dedup=False)]
     want = [(d.name, str(d.version), str(d.head)) for d in (first, second)]
-    if [g[0] for g in got[:2]] != ["react", "react-dom"] or sorted(got[2:]) != sorted(want):
+    if [g[0] for g in got[:2]] != ["react", "react-dom"]:
+        return False
+    if v == 3:
+        # two equal copies: carrying one of them already carries "every metadata node" up to equality - do not demand both
+        if not (1 <= len(got[2:]) <= 2 and set(got[2:]) == set(want)):
+            return False
+    elif sorted(got[2:]) != sorted(want):
         return False
     # the document then resolves to the highest version (earliest on ties), whatever order the walk found them in
     names = [(d.name, str(d.version)) for d in Tag("div", comp).render()["dependencies"]]
